@@ -283,10 +283,10 @@ func (b *Built) buildInner(names []string, race bool) (string, *pipe.Result, err
 		return "", nil, err
 	}
 	bin := filepath.Join(b.L.Root, "inner.test")
-	args := []string{"go", "test", "-c", "-vet=off", "-o", bin}
+	args := []string{"go", "test", "-c", "-vet=off", "-tags", mat.HiddenTag, "-o", bin}
 	if race {
 		bin = filepath.Join(b.L.Root, "inner-race.test")
-		args = []string{"go", "test", "-c", "-vet=off", "-race", "-o", bin}
+		args = []string{"go", "test", "-c", "-vet=off", "-tags", mat.HiddenTag, "-race", "-o", bin}
 	}
 	args = append(args, "./"+mat.UserPkg)
 	r := pipe.Run(pipe.Cmd{Dir: filepath.Join(b.L.Root, "m"), Env: b.ctx.goEnv(), Args: args, Timeout: 5 * time.Minute})
